@@ -68,6 +68,10 @@ def check(ctx):
     # a memo slot shared by values that differ in something not in its key makes a result depend on what was asked before
     from ..dispatch import check_cache_keys
     check_cache_keys(ctx, rule="R5-cache-key-complete")
+    # ---- R8 no value of the attribute table comes from uninitialised memory (np.empty as out= of a guarded ufunc: the masked-out bins
+    #      then hold whatever the heap held - earlier results - so the value depends on what was computed before)
+    from ..inputs import check_guards
+    check_guards(ctx, rule_g="R8-no-uninitialised-output", rule_u="R8-unguarded-divisors")
     # ---- R6 the NumPy kernels process the segments in chunks: the statistics must not depend on the chunk size (a processing parameter)
     _chunk_independence(ctx)
     # ---- R3 analyzer history
